@@ -24,15 +24,6 @@ Definition AN := ANonStruct.
 Definition AZ := ANil.                 (* ParseFields(nil) / Struct{Value: nil} *)
 Definition AZP := ANilStructPtr.       (* a nil pointer of type pointer-to-T, T the struct of the given shape *)
 
-Inductive mode :=
-| MNew (allow : bool) (extra : list name)        (* NewStore{Structs: {ptr, prefix}, Secrets: extra} *)
-| MApp (allow : bool) (declared : list name)     (* store built over `declared`, then ParseFields + Apply *)
-| MDecl (allow : bool) (extra : list name) (sec1 sec2 : list name).
-       (* f := ParseFields; NewStore{Secrets: f.Secrets() (the very slice; ++ extra)}; the harness then
-          sorts / reverses / overwrites that slice; f.Apply; f.Secrets() again.
-          sec1, sec2 = what the two Secrets() calls returned (OBSERVATIONS, carried here to leave the
-          shape of `obs` alone) *)
-
 (* one leaf field after the run: unchanged?, native projection (value token), JSON projection
    (decode-result token), value token served by a handle after the refresh (0 = not a handle / no store) *)
 Inductive oloc := OL (i j : N) (unch : bool) (vt dt v2 : N).
@@ -41,6 +32,25 @@ Inductive oloc := OL (i j : N) (unch : bool) (vt dt v2 : N).
    nerrs = number of joined errors; reqs = names asked of the service (ordered for MApp, sorted for MNew);
    intact = after overwriting every populated []byte field the store still serves the original bytes *)
 Inductive obs := Ob (errclass nerrs : N) (reqs : list name) (locs : list oloc) (intact : bool).
+
+Inductive mode :=
+| MNew (allow : bool) (extra : list name)        (* NewStore{Structs: {ptr, prefix}, Secrets: extra} *)
+| MApp (allow : bool) (declared : list name)     (* store built over `declared`, then ParseFields + Apply *)
+| MDecl (allow : bool) (extra : list name) (sec1 sec2 : list name)
+| MRe (allow1 : bool) (declared1 : list name) (same : bool) (allow2 : bool) (declared2 : list name)
+      (svc2 : list (name * (N * N))) (o1 : obs).
+       (* f := ParseFields; NewStore{Secrets: f.Secrets() (the very slice; ++ extra)}; the harness then
+          sorts / reverses / overwrites that slice; f.Apply; f.Secrets() again.
+          sec1, sec2 = what the two Secrets() calls returned (OBSERVATIONS, carried here to leave the
+          shape of `obs` alone) *)
+       (* MRe: ONE parsed Fields applied twice.  First to a store over declared1 (service = the case's svc,
+          AllowLookup allow1): o1 = what was observed after that Apply (OBSERVATION).  Then, same = false:
+          to a SECOND store over declared2 / allow2 whose service is svc2 (other bytes for the same names);
+          same = true: to the same store after every name in svc2 got that new version and a Refresh
+          installed it.  The case's obs is what was observed after the second Apply: "unchanged" there
+          means unchanged since the first Apply (handle, json-verb and non-built-in-typed fields are put
+          back to their sentinel by the harness in between, unmarshaler call counters zeroed); the handle
+          refresh tokens refer to svc2 *)
 
 Inductive case :=
 | CRun (md : mode) (a : arg) (pfx : bstr) (svc : list (name * (N * N))) (unmfail : list N)
@@ -141,6 +151,26 @@ Definition intact_model (s' : store N) (frs : list (fres N N)) (svc : list (name
 Definition shape_of (a : arg) : list item :=
   match a with AStructPtr sh => sh | AStruct sh => sh | ANonStruct | ANil | ANilStructPtr _ => [] end.
 
+(* an observation against the model's result of one Apply *)
+Definition applied_obs (a : arg) (svc : list (name * (N * N))) (o : obs) (ordered live : bool)
+           (init_rq : list name) (s' : store N) (frs : list (fres N N)) (rq : list name) : bool :=
+  match o with
+  | Ob ec ne reqs locs intact =>
+        let errs := reported frs in
+        N.eqb ec (match errs with [] => 0 | _ => 2 end)%N
+        && (match errs with [] => true | _ => N.eqb ne (N.of_nat (length errs)) end)
+        && (if ordered then list_beq bytes_beq reqs rq else same_set reqs (init_rq ++ rq))
+        && check_locs s' svc live frs (all_locs (shape_of a)) locs
+        && Bool.eqb intact (intact_model s' frs svc)
+  end.
+
+(* the store after a poll installed the versions svc2 holds for the names it knows *)
+Definition bump (s : store N) (ans2 : name -> option (N * N)) : store N :=
+  with_m s (map (fun '(n, oe) => (n, match oe, ans2 n with
+                                     | Some e, Some (v, b) => Some (CE v b (last e) (decl e))
+                                     | _, _ => oe
+                                     end)) (m s)).
+
 Definition check_run (md : mode) (a : arg) (pfx : bstr) svc unmfail jt (o : obs) : bool :=
   let ans := fun n => assoc n svc in
   let jdec := jlookup jt in
@@ -148,14 +178,22 @@ Definition check_run (md : mode) (a : arg) (pfx : bstr) svc unmfail jt (o : obs)
   match o with
   | Ob ec ne reqs locs intact =>
     let rejected := N.eqb ec 1 && list_beq bytes_beq reqs [] && all_unchanged (all_locs (shape_of a)) locs && intact in
-    let applied (ordered live : bool) (init_rq : list name) (s' : store N) (frs : list (fres N N)) (rq : list name) :=
-        let errs := reported frs in
-        N.eqb ec (match errs with [] => 0 | _ => 2 end)%N
-        && (match errs with [] => true | _ => N.eqb ne (N.of_nat (length errs)) end)
-        && (if ordered then list_beq bytes_beq reqs rq else same_set reqs (init_rq ++ rq))
-        && check_locs s' svc live frs (all_locs (shape_of a)) locs
-        && Bool.eqb intact (intact_model s' frs svc) in
+    let applied := applied_obs a svc o in
     match md with
+    | MRe allow1 declared1 same allow2 declared2 svc2 o1 =>
+      match parse_fields a with
+      | inl _ => rejected
+      | inr pfs =>
+        let ans2 := fun n => assoc n svc2 in
+        let sA := initial_store allow1 declared1 ans in
+        let sB := if same then bump (fst (fst (apply jdec unm_ok ans 0%Z pfx sA pfs))) ans2
+                  else initial_store allow2 declared2 ans2 in
+        match apply jdec unm_ok ans 0%Z pfx sA pfs, apply jdec unm_ok ans2 0%Z pfx sB pfs with
+        | (sA', frs1, rq1), (sB', frs2, rq2) =>
+            applied_obs a svc o1 true false [] sA' frs1 rq1
+            && applied_obs a svc2 o true true [] sB' frs2 rq2
+        end
+      end
     | MApp allow declared =>
       match parse_apply jdec unm_ok ans 0%Z a pfx (initial_store allow declared ans) with
       | (_, inl _, _) => rejected
